@@ -18,6 +18,79 @@ EXPLANATION = (
     "No network, filesystem or clock behaviour is decided.")
 
 FIELDS = ('major', 'minor', 'patch')
+TUPLERS = ('tie', 'make_tuple', 'forward_as_tuple')
+
+
+def _tuple_shape(e):
+    """std::tie(v.major, v.minor, …) → (text of v, (field names))"""
+    e = SX.strip(e)
+    while SX.is_node(e) and e.get('k') in ('cast', 'construct') and (e['k'] == 'cast' or len(SX.real_args(e)) == 1):
+        e = SX.strip(e['e'] if e['k'] == 'cast' else SX.real_args(e)[0])
+    if not (SX.is_node(e) and e.get('k') == 'call' and SX.short(e.get('callee', '')) in TUPLERS):
+        return None
+    bases, names = set(), []
+    for a in SX.real_args(e):
+        a = SX.strip(a)
+        while SX.is_node(a) and a.get('k') == 'cast':
+            a = SX.strip(a['e'])
+        if not (SX.is_node(a) and a.get('k') == 'member' and a['name'] in FIELDS):
+            return None
+        bases.add(SX.show(a['base']))
+        names.append(a['name'])
+    if len(bases) != 1:
+        return None
+    return bases.pop(), tuple(names)
+
+
+def _tuple_pairwise(f, pm, tcall):
+    """the tuple built by tcall is only ever compared with a tuple of the same fields, in the same order, of another version:
+    tuple comparison is then the position-wise comparison of corresponding components the quotient argument needs"""
+    mine = _tuple_shape(tcall)
+    if mine is None:
+        return False
+    vars_ = {v['id']: v for v in SX.walk(f.body, into_lambdas=False) if v['k'] == 'var'}
+
+    def shape_of(e):
+        e = SX.strip(e)
+        while SX.is_node(e) and e.get('k') == 'cast':
+            e = SX.strip(e['e'])
+        if SX.is_node(e) and e.get('k') == 'ref' and e.get('id') in vars_ and 'const' in (vars_[e['id']].get('type') or ''):
+            return _tuple_shape(vars_[e['id']].get('init'))
+        return _tuple_shape(e)
+
+    def cmp_ok(user):
+        # user: the expression standing for the tuple (the call or a reference to the const local holding it); climb to the
+        # comparison it is an operand of (C++20 spells `a < b` on tuples as `(a <=> b) < 0`)
+        par = pm.get(id(user))
+        top = None
+        hops = 0
+        while par is not None and hops < 4:
+            if par.get('k') in ('bin', 'opcall') and par.get('op') in ('==', '!=', '<', '>', '<=', '>='):
+                top = par
+                break
+            if par.get('k') not in ('cast', 'paren', 'opcall', 'bin') or (par.get('k') in ('opcall', 'bin') and par.get('op') != '<=>'):
+                return False
+            par = pm.get(id(par))
+            hops += 1
+        cp = SX.cmp_parts(top) if top is not None else None
+        if not cp:
+            return False
+        sides = [SX.strip(cp[1]), SX.strip(cp[2])]
+        me = [x for x in sides if any(y is user for y in SX.walk(x)) or x is user]
+        others = [x for x in sides if x not in me]
+        if len(me) != 1 or len(others) != 1:
+            return False
+        o = shape_of(others[0])
+        return o is not None and o[1] == mine[1] and o[0] != mine[0]
+    par = pm.get(id(tcall))
+    while par is not None and par.get('k') in ('cast', 'construct') and (par['k'] == 'cast' or len(SX.real_args(par)) == 1):
+        tcall, par = par, pm.get(id(par))
+    if par is not None and par.get('k') == 'var':
+        if 'const' not in (par.get('type') or ''):
+            return False
+        uses = [x for x in SX.walk(f.body, into_lambdas=False) if x['k'] == 'ref' and x.get('id') == par['id']]
+        return bool(uses) and all(cmp_ok(u) for u in uses)
+    return cmp_ok(tcall)
 
 
 def run(prog, chk):
@@ -54,6 +127,8 @@ def run(prog, chk):
                 if par is not None and par.get('k') == 'bin' and par['op'] in ('==', '!=', '<', '>', '<=', '>='):
                     other = par['r'] if par['l'] is n else par['l']
                     ok = SX.is_node(other) and other['k'] == 'member' and other['name'] == n['name'] and SX.show(other['base']) != SX.show(n['base'])
+                if not ok and par is not None and par.get('k') == 'call' and SX.short(par.get('callee', '')) in TUPLERS:
+                    ok = _tuple_pairwise(f, pm, par)
                 if ok:
                     chk.ob('R20.1', f, n.get('ln', f.ln), True, 'version component %s compared with the same component of the other version' % SX.show(n),
                            key='pairwise:%s' % f.short, nontrivial=False)
@@ -64,7 +139,9 @@ def run(prog, chk):
                            'version component %s is used as an operand of `%s`: versions must be ordered by comparing components, not by arithmetic on them '
                            '(packing/differences collide or overflow for large components)' % (SX.show(n), par['op']), key='arith:%s' % f.short.split('@')[0])
                 else:
-                    raise AnalysisBroken('version component %s is used in a way the quotient argument does not cover (%s); the comparison tables cannot be decided' % (
+                    # the tables below are then not exact for all integers — but a mismatch on a representative is still a concrete
+                    # counterexample; decided at the end (violations win, otherwise analysis broken)
+                    chk.vacuous.append('version component %s is used in a way the quotient argument does not cover (%s); the comparison tables cannot be decided' % (
                         SX.show(n), (par or {}).get('k')))
     chk.count('uses of version components outside the parser', nuse, 12)
 
@@ -224,20 +301,40 @@ def run(prog, chk):
     okr = len(rets) == 1 and _is_disjunction_of_getenv(rets[0]['e'])
     chk.ob('R20.3', skip, skip.ln, okr, 'shouldSkipChecks returns the disjunction of its environment switches', key='env-disjunction')
     gd = prog.cfg(due)
-    calls = [c for c in gd.calls(lambda e: e['k'] == 'call' and SX.callee(e) == notice.name)]
-    chk.count('notice call sites', len(calls), 3)
     skipconds = [n for n in gd.nodes if n.kind == 'edge' and not n.pol and SX.is_node(n.e) and n.e['k'] == 'call' and SX.callee(n.e) == skip.name]
-    for i, c in enumerate(calls):
-        ok = bool(skipconds) and gd.must_precede(skipconds, c)
-        chk.ob('R20.3', due, c.ln, ok, 'notice must be unreachable when update checks are disabled by environment', key='skip-dominates#%d' % i)
-        saves = [s for s in gd.calls(lambda e: e['k'] == 'call' and SX.short(SX.callee(e)) == 'saveCache')]
-        # after a `true` result the cache is saved on every normal path
-        tedges = [n for n in gd.nodes if n.kind == 'edge' and n.pol and n.e is c.e]
-        if tedges:
-            ok2 = all(gd.must_follow(t, saves) for t in tedges)
+    # notice call sites: in checkForUpdatesIfDue itself, or in file-local helpers it calls (notifyFromCache(cache, …)); a helper's
+    # sites inherit the environment gate from the helper's call sites, all of which must then be in checkForUpdatesIfDue
+    sites = [(due, gd, c, None) for c in gd.calls(lambda e: e['k'] == 'call' and SX.callee(e) == notice.name)]
+    for h in um:
+        if h in (due, notice, selfupd) or h.kind == 'lambda':
+            continue
+        gh = prog.cfg(h)
+        hc = [c for c in gh.calls(lambda e: e['k'] == 'call' and SX.callee(e) == notice.name)]
+        if not hc:
+            continue
+        outer = [c for c in gd.calls(lambda e: e['k'] == 'call' and SX.callee(e) == h.name)]
+        elsewhere = [f2 for f2 in um if f2 is not due and f2 is not h and any(n['k'] == 'call' and SX.callee(n) == h.name for n in SX.walk(f2.body))]
+        for c in hc:
+            sites.append((h, gh, c, (outer, elsewhere)))
+    chk.count('notice call sites', len(sites), 2)
+    for i, (h, gh, c, via) in enumerate(sites):
+        if via is None:
+            ok = bool(skipconds) and gd.must_precede(skipconds, c)
         else:
-            ok2 = gd.must_follow(c, saves)
-        chk.ob('R20.3', due, c.ln, ok2, 'a printed notice (true result) must be followed by saveCache so that the 72 h stamp persists', key='save-after#%d' % i)
+            outer, elsewhere = via
+            ok = bool(skipconds) and bool(outer) and not elsewhere and all(gd.must_precede(skipconds, o) for o in outer)
+        chk.ob('R20.3', h, c.ln, ok, 'notice must be unreachable when update checks are disabled by environment', key='skip-dominates#%d' % i)
+        saves = [s_ for s_ in gh.calls(lambda e: e['k'] == 'call' and SX.short(SX.callee(e)) == 'saveCache')]
+        # after a `true` result the cache is saved on every normal path
+        tedges = [n for n in gh.nodes if n.kind == 'edge' and n.pol and n.e is c.e]
+        if tedges:
+            ok2 = all(gh.must_follow(t, saves) for t in tedges)
+        else:
+            ok2 = gh.must_follow(c, saves)
+        if not ok2 and via is not None and via[0]:
+            dsaves = [s_ for s_ in gd.calls(lambda e: e['k'] == 'call' and SX.short(SX.callee(e)) == 'saveCache')]
+            ok2 = all(gd.must_follow(o, dsaves) for o in via[0])
+        chk.ob('R20.3', h, c.ln, ok2, 'a printed notice (true result) must be followed by saveCache so that the 72 h stamp persists', key='save-after#%d' % i)
     win = [gl for (nm, fl, ln), gl in prog.facts.globals.items() if nm.endswith('kUpdateWindow')]
     okw = len(win) == 1 and ('hours' in SX.show(win[0]['init']) or 'ratio<3600' in SX.show(win[0]['init'])) and '(72)' in SX.show(win[0]['init'])
     chk.ob('R20.3', 'update_manager', 'src/bloch/update/update_manager.cpp', okw, 'notice window constant is 72 hours (%s)' % (SX.show(win[0]['init'])[:60] if win else 'not found'),
